@@ -24,14 +24,26 @@ Theorem c03_linearizable_generic :
 Proof. exact linearizable_generic. Qed.
 Print Assumptions c03_linearizable_generic.
 
-(* The real orchestrators: every section LockedOrca builds for an in-scope request of the
-   L1-only, L1/L2 or batch-port orchestrator is good w.r.t. the single-map reference ... *)
+(* The real orchestrators. Two-tier deployments (L1/L2 on the main port, the batch-port
+   orchestrator on the same lock set): every section LockedOrca builds for an in-scope request
+   is good w.r.t. the single-map reference, the invariant being [cinv] (the L1 copy, if any, has
+   L2's value and flags and does not outlive it). *)
 Theorem c03_orca_sections_good : forall now k r s,
-  in_scope k r = true -> In s (sections_of now k r) ->
+  k <> KL1Only -> in_scope k r = true -> In s (sections_of now k r) ->
   good_section cell sres (option entry) (cinv now) (absv now)
                (fun s v => ref_sec now s v) (fun s v => snd (ref_sec now s v)) s.
 Proof. exact orca_sections_good. Qed.
 Print Assumptions c03_orca_sections_good.
+
+(* One-tier deployment (L1Only): its only backend is the second component of the cell; the
+   invariant [cinv1] says the unused first component stays empty (with a stale non-empty first
+   component [cinv] alone is not preserved by a one-tier delete). *)
+Theorem c03_orca_sections_good_one : forall now r s,
+  in_scope KL1Only r = true -> In s (sections_of now KL1Only r) ->
+  good_section cell sres (option entry) cinv1 (absv now)
+               (fun s v => ref_sec now s v) (fun s v => snd (ref_sec now s v)) s.
+Proof. exact orca_sections_good_one. Qed.
+Print Assumptions c03_orca_sections_good_one.
 
 (* ... so every concurrent history of connections on the main and the batch port sharing one
    lock set is linearizable w.r.t. the single map, and afterwards L1 holds nothing that
@@ -39,7 +51,7 @@ Print Assumptions c03_orca_sections_good.
 Theorem c03_linearizable : forall now slot_of multi_reader (st0 st : state cell sres) ls,
   initial cell sres st0 ->
   (forall t todo done c s, thr cell sres st0 t = TIdle cell sres todo done -> In c todo -> In s c ->
-     exists k r, in_scope k r = true /\ In s (sections_of now k r)) ->
+     exists k r, k <> KL1Only /\ in_scope k r = true /\ In s (sections_of now k r)) ->
   (forall k, cinv now (cells cell sres st0 k)) ->
   exec cell sres slot_of multi_reader true st0 ls st -> no_panic cell sres ls -> quiescent cell sres st ->
   let '(m, out) := lin_replay cell sres (option entry) (fun s v => ref_sec now s v)
@@ -48,6 +60,20 @@ Theorem c03_linearizable : forall now slot_of multi_reader (st0 st : state cell 
   (forall k, cinv now (cells cell sres st k) /\ absv now (cells cell sres st k) = m k).
 Proof. exact linearizable_orcas. Qed.
 Print Assumptions c03_linearizable.
+
+(* the same for the one-tier deployment *)
+Theorem c03_linearizable_one : forall now slot_of multi_reader (st0 st : state cell sres) ls,
+  initial cell sres st0 ->
+  (forall t todo done c s, thr cell sres st0 t = TIdle cell sres todo done -> In c todo -> In s c ->
+     exists r, in_scope KL1Only r = true /\ In s (sections_of now KL1Only r)) ->
+  (forall k, cinv1 (cells cell sres st0 k)) ->
+  exec cell sres slot_of multi_reader true st0 ls st -> no_panic cell sres ls -> quiescent cell sres st ->
+  let '(m, out) := lin_replay cell sres (option entry) (fun s v => ref_sec now s v)
+                     (fun s v => snd (ref_sec now s v)) ls (fun k => absv now (cells cell sres st0 k)) in
+  (forall t, observed cell sres ls t = predicted sres out t) /\
+  (forall k, cinv1 (cells cell sres st k) /\ absv now (cells cell sres st k) = m k).
+Proof. exact linearizable_orcas_one. Qed.
+Print Assumptions c03_linearizable_one.
 
 (* the reference of a section is the single map: the section run on a cold L1 writes the client
    the same bytes, and leaves the same value, as the one-tier orchestrator on a one-key map *)
@@ -66,3 +92,24 @@ Theorem c03_unlocked_refuted : exists now slot_of (st0 st : state cell sres) ls,
   exec cell sres slot_of true false st0 ls st /\ quiescent cell sres st /\
   exists k, ~ cinv now (cells cell sres st k).
 Proof. exact unlocked_refuted. Qed.
+Print Assumptions c03_unlocked_refuted.
+
+(* non-vacuity: two connections setting the same key through L1/L2 satisfy the premises of
+   c03_linearizable (it is the initial state of the refutation above) *)
+Example c03_premises_satisfiable :
+  initial cell sres ur_st0 /\ (forall k, cinv 0 (cells cell sres ur_st0 k)) /\
+  (forall t todo done c s, thr cell sres ur_st0 t = TIdle cell sres todo done -> In c todo -> In s c ->
+     exists k r, k <> KL1Only /\ in_scope k r = true /\ In s (sections_of 0 k r)) /\
+  exists c s, thr cell sres ur_st0 0%nat = TIdle cell sres [c] [] /\ In s c.
+Proof.
+  split. { intros [|[|t]]; eexists; reflexivity. }
+  split. { intros k e1 E. discriminate E. }
+  split.
+  - intros [|[|t]] todo done c s E Ic Is; cbn in E; inversion E; subst; clear E.
+    + destruct Ic as [<-|[]]. destruct Is as [<-|[]].
+      exists KL1L2, (RSet MSet [1] [10] 0 0 0 false). split; [discriminate|]. split; [reflexivity|left; reflexivity].
+    + destruct Ic as [<-|[]]. destruct Is as [<-|[]].
+      exists KL1L2, (RSet MSet [1] [20] 0 0 0 false). split; [discriminate|]. split; [reflexivity|left; reflexivity].
+    + destruct Ic.
+  - exists [ur_sec [10]], (ur_sec [10]). split; [reflexivity|left; reflexivity].
+Qed.
